@@ -475,7 +475,23 @@ def hStF7Probe (args : List String) (real : Option String) : Option Out := do
   let [] := args | none
   some { model := match real with | some "propagates" => "propagates" | _ => "swallows" }
 
-/-- `st-case NAME meta= memb= file= lo= hi= mode= reset= docs= high= flog= loaderr= seq= f7= flogerr= openerr= delay= push=` -/
+/-- a per-vBucket counter of a real observation: `KEY=[vb:n vb:n …]` -/
+def parseCounts (key : String) (r : String) : Option (List (Vb × Nat)) :=
+  match r.splitOn (key ++ "=[") with
+  | [_, rest] =>
+    match rest.splitOn "]" with
+    | body :: _ => (toks body).mapM pair?
+    | [] => none
+  | _ => none
+
+def countOf (l : List (Vb × Nat)) (vb : Vb) : Nat := ((l.filter fun p => p.1 == vb).map (·.2)).foldl (· + ·) 0
+
+/-- the four re-openable STREAM_END statuses the harness pushes (stream.go listenEnd l.208-212) -/
+def transientEnd (s : String) : Bool :=
+  s == "state-changed" || s == "disconnected" || s == "too-slow" || s == "backfill-failed"
+
+/-- `st-case NAME meta= memb= file= lo= hi= mode= reset= docs= high= flog= loaderr= seq= f7= flogerr= openerr= delay= push=`
+    `[end=VBS:STATUS:s|r reref=VBS]`; `seq=ok|err|partial:VBS` -/
 def hStCase (args : List String) (real : Option String) : Option Out := do
   let _name :: rest := args | none
   let get := kvArg rest
@@ -497,11 +513,28 @@ def hStCase (args : List String) (real : Option String) : Option Out := do
   if lo > hi then none
   let st : St := { cfg := { lo, hi, finite := (← get "mode") == "fin", resetLatest := (← get "reset") == "latest" },
                    store := docs, high := high, flog := flog }
-  let seq : Startup.SeqAnswer :=
-    if seqS == "err" then (if f7 == "propagates" then .errPropagated else .errSwallowed) else .ok
+  let seq : Startup.SeqAnswer ←
+    if seqS == "err" then some (if f7 == "propagates" then Startup.SeqAnswer.errPropagated else .errSwallowed)
+    else if seqS == "ok" then some .ok
+    else match seqS.splitOn ":" with
+      | ["partial", vs] => do
+        let m ← vbs? vs
+        if m.isEmpty then none else some (.missing m)
+      | _ => none
+  let partialAns := match seq with | .missing _ => true | _ => false
+  -- the optional stream-end fields
+  let endCase := (get "end").isSome
+  let (ended, reopenErr) : List Vb × List Vb ← match get "end" with
+    | none => some ([], [])
+    | some e => match e.splitOn ":" with
+      | [vs, status, phase] => do
+        let ev ← vbs? vs
+        let rr ← vbs? (← get "reref")
+        if ev.isEmpty || !transientEnd status || !(phase == "s" || phase == "r") then none else some (ev, rr)
+      | _ => none
   let assigned := vbRange st.cfg
   let c : Startup.Case := { metaType := metaT, memberType := memb, st, seq,
-                            loadErr := assigned.any loadErr.contains, flogErr, openErr }
+                            loadErr := assigned.any loadErr.contains, flogErr, openErr, ended, reopenErr }
   -- config.GetFileMetadata: type "file" without a file name panics in NewFSMetadata (dcp.go Start, first switch)
   let exit := if metaT == "file" && file != "set" then Startup.Exit.fail "file-name-missing" else Startup.start c
   -- traffic: one mutation per opened stream whose high seqno is not 2^64-1 (harness rule)
@@ -509,8 +542,16 @@ def hStCase (args : List String) (real : Option String) : Option Out := do
     (offs.filter fun p => push && Startup.trueHigh c p.1 != maxU64).length
   let lateSome := Startup.deliversBeforeStop c delay push
   let model := match exit with
-    | .running offs => s!"{showReqs offs} events={pushed offs}"
-    | .fail cls => s!"exit-fail:{cls} events={if lateSome then "some" else "none"}"
+    | .running offs =>
+      if endCase then
+        -- every logged request: the first round and the re-open round (`Startup.reRequests`), then the ends pushed
+        let endedAssigned := (sortBy id ended.eraseDups).filter assigned.contains
+        s!"{showReqs (offs ++ Startup.reRequests c offs)} events={pushed offs} " ++
+          "ends=[" ++ join (endedAssigned.map fun vb => s!"{vb}:{Startup.endsOf c vb}") ++ "] refused=[]"
+      else s!"{showReqs offs} events={pushed offs}"
+    | .fail cls =>
+      s!"exit-fail:{cls} events={if lateSome then "some" else "none"}" ++
+        (if endCase then s!" rereqs={if cls == "reopen-gave-up" then Startup.reopenAttempts else 0}" else "")
   let model := match exit with | .running _ => "running " ++ model | _ => model
   -- a prompt error answer racing with traffic: both `none` and `some` are possible
   let model := match exit, real with
@@ -518,7 +559,10 @@ def hStCase (args : List String) (real : Option String) : Option Out := do
     | _, _ => model
   -- the property on the REAL observation: `reasons` = why this start-up must be refused, judged on the
   -- TRUE server state (`load st` with the real high seqnos, whatever the client made of the answer)
-  let ahead := (load st).isNone
+  -- a PARTIAL answer is judged on what the server reported: a left-out vBucket counts as high seqno 0 (that is the
+  -- reading of the unchanged client, `Props/C15.partial_seqnos_missing_is_zero`), so a stored seqno > 0 there is "ahead"
+  let ahead := (load st).isNone || (partialAns && (load (Startup.seenState c)).isNone)
+  let reopenRefused := assigned.any fun vb => ended.contains vb && reopenErr.contains vb
   let reasons : List String :=
     (if !Startup.knownMetadata metaT || (metaT == "file" && file != "set") then ["metadata-type"] else []) ++
     (if !Startup.knownMembership memb then ["membership-type"] else []) ++
@@ -526,7 +570,8 @@ def hStCase (args : List String) (real : Option String) : Option Out := do
     (if seqS == "err" then ["seqno-error"] else []) ++
     (if Startup.latestBranch st && assigned.any flogErr.contains then ["failover-error"] else []) ++
     (if ahead then ["checkpoint-ahead"] else []) ++
-    (if assigned.any openErr.contains then ["open-error"] else [])
+    (if assigned.any openErr.contains then ["open-error"] else []) ++
+    (if reopenRefused then ["reopen-refused"] else [])
   let v := match real with
     | none => "-"
     | some r =>
@@ -538,8 +583,15 @@ def hStCase (args : List String) (real : Option String) : Option Out := do
           -- reachable (start seqno ≤ the server's true high seqno)
           (match parseReqs r with
            | some reqs =>
-             if reqs.map (·.1) != assigned then "FAIL C15.session-incomplete"
-             else if !(reqs.all fun p => (p.2.getD 2 0) ≤ Startup.trueHigh c p.1) then "FAIL C15.start-beyond-high"
+             if (if endCase then (reqs.map (·.1)).eraseDups != assigned else reqs.map (·.1) != assigned) then "FAIL C15.session-incomplete"
+             else if !(reqs.all fun p => (p.2.getD 2 0) ≤ Startup.reportedHigh c p.1) then "FAIL C15.start-beyond-high"
+             -- a stream the server ended must have been opened again (`Props/C15.running_every_vbucket_live`):
+             -- per assigned vBucket  accepted requests − pushed ends ≥ 1,  and every request of a vBucket names the same position
+             else if endCase && !(match parseCounts "ends" r, parseCounts "refused" r with
+                 | some ends, some refused => assigned.all fun vb =>
+                     (reqs.filter fun p => p.1 == vb).length ≥ countOf refused vb + countOf ends vb + 1
+                 | _, _ => false) then "FAIL C15.ended-stream-not-reopened"
+             else if endCase && !(reqs.all fun p => reqs.all fun q => p.1 != q.1 || p.2 == q.2) then "FAIL C15.reopen-other-position"
              else
                -- C06 (inductive from valid stored checkpoints): every request names a valid resume point
                let storeValid := st.store.all fun (_, d) => d.ss ≤ d.seq && d.seq ≤ d.se
